@@ -1573,4 +1573,24 @@ theorem isoPropType_other_error (db : Db) (mem : Mem) (w : String) :
     (runOp db mem (.isoPropTypeOp w) none).mem = mem := by
   refine ⟨?_, ?_, ?_⟩ <;> rfl
 
+/-- an isotherm on the STORED material `MOF-1` and the new adsorbate `CO2` -/
+def iso3 : IsoIn := { iso2 with id := "iso3", material := some "MOF-1", matProps := [] }
+
+/-- an isotherm on the new material `MOF-2` and the STORED adsorbate `N2` -/
+def iso4 : IsoIn := { iso2 with id := "iso4", adsorbate := some "N2", adsProps := [] }
+
+/-- **the two auto-insertion options are independent and not interchangeable** (witness; every public route to the upload — the
+function and the method `isotherm.to_db` — is tied to this one model operation by the harness, each with independent option values):
+each option governs its own reference only.  With the material stored and the adsorbate new, `(autoMat, autoAds) = (true, false)` is
+refused and changes nothing while `(false, true)` is accepted and inserts exactly the adsorbate; with the adsorbate stored and the
+material new it is the other way round.  An entry point that forwards one option in the place of the other is therefore observable on
+a well-formed file whenever exactly one of the two references is unknown and the two option values differ. -/
+theorem autoinsert_options_independent :
+    ((runOp db0 mem0 (.isoToDb iso3 true false) none).out = .parsingError ∧ (runOp db0 mem0 (.isoToDb iso3 true false) none).db = db0 ∧
+     (runOp db0 mem0 (.isoToDb iso3 false true) none).out = .ok ∧ (runOp db0 mem0 (.isoToDb iso3 false true) none).db.ads = ["N2", "CO2"] ∧
+     (runOp db0 mem0 (.isoToDb iso3 false true) none).db.mats = db0.mats) ∧
+    ((runOp db0 mem0 (.isoToDb iso4 false true) none).out = .parsingError ∧ (runOp db0 mem0 (.isoToDb iso4 false true) none).db = db0 ∧
+     (runOp db0 mem0 (.isoToDb iso4 true false) none).out = .ok ∧ (runOp db0 mem0 (.isoToDb iso4 true false) none).db.mats = ["MOF-1", "MOF-2"] ∧
+     (runOp db0 mem0 (.isoToDb iso4 true false) none).db.ads = db0.ads) := by decide +kernel
+
 end PgVerif.C08
